@@ -311,7 +311,7 @@ class Interpreter(object):
 
     def command_sort(self):
         def key(citation):
-            return self.entry_vars[citation]['sort.key$']
+            return self.entry_vars[citation].get('sort.key$', '')
         self.citations.sort(key=key)
 
     def command_strings(self, identifiers):
